@@ -492,16 +492,26 @@ func (w *World) solve(obls []*Obligation, timeoutMs int, thorough bool, stats *S
 			stats.Secs["z3-new"] += secs
 			stats.Queries += len(part)
 			mu.Unlock()
-			if len(sts) != len(part) {
+			if len(sts) > len(part) {
 				for _, o := range part {
 					o.Status = "error"
 					o.Output = "batch produced " + fmt.Sprint(len(sts)) + " answers for " + fmt.Sprint(len(part)) + " queries: " + firstLines(out, 5)
 				}
 				return
 			}
+			// fewer answers than queries: the solver got stuck on query number len(sts) and was stopped. The answers
+			// it gave stand; the stuck query and the ones behind it go to the individual race.
 			for k, o := range part {
-				o.Status = sts[k]
 				o.Solver = "z3-new"
+				if k < len(sts) {
+					o.Status = sts[k]
+				} else if k == len(sts) {
+					o.Status = "timeout"
+					o.Output = "the batch stopped at this query"
+				} else {
+					o.Status = "unknown"
+					o.Output = "not reached in the batch"
+				}
 			}
 		}(part)
 	}
@@ -533,7 +543,7 @@ func (w *World) solve(obls []*Obligation, timeoutMs int, thorough bool, stats *S
 	solvers := []string{"z3-new", "z3", "cvc5"}
 	if os.Getenv("GOVC_SLOW") != "" {
 		for _, o := range hard {
-			fmt.Printf("SLOW %s (%s) batch status %s\n", o.Name, o.Kind, o.Status)
+			fmt.Printf("SLOW %s (%s) batch status %s %s\n", o.Name, o.Kind, o.Status, truncate(o.Output, 300))
 		}
 	}
 	for _, o := range hard {
